@@ -20,6 +20,7 @@ structure St where
   lookups : List (Nat × Nat) := []    -- (verdict op, write): between the pending lookup and the commit
   fired : List Nat := []              -- timeout function between its two halves
   outcomes : List (Nat × Out) := []
+  presented : List (Nat × Nat) := []  -- (write, callback index): invocations of the approval callbacks
 
 inductive Ev
   | arrive (w : Nat)
@@ -47,7 +48,8 @@ def finish (c : Cfg) (s : St) (w : Nat) (approve : Bool) : St :=
 def step (c : Cfg) (s : St) : Ev → St
   | .arrive w =>
     if s.seen.contains w then s
-    else { s with seen := w :: s.seen, pending := w :: s.pending, armed := w :: s.armed }
+    else { s with seen := w :: s.seen, pending := w :: s.pending, armed := w :: s.armed,
+                  presented := s.presented ++ (List.range s.nCb).map (fun i => (w, i)) }
   | .lookup op w => if s.pending.contains w then { s with lookups := (op, w) :: s.lookups } else s
   | .commit op approve =>
     match s.lookups.find? (·.1 = op) with
